@@ -147,8 +147,10 @@ def constructor(repo, res, init):
         from engine.sem import summarise
 
         dimv, unitv = [norm(e) for e in loop[0].target.elts]
-        with_reg = [f"self.registry[str({unitv})][1] is {dimv}", f"self.registry[str({unitv})][1] == {dimv}"]
-        no_reg = [f"default_lut[inv_name_alternatives[_split_prefix(str({unitv}), default_lut)[1]]][1] is {dimv}", f"default_lut[inv_name_alternatives[_split_prefix(str({unitv}), default_lut)[1]]][1] == {dimv}"]
+        # the unit as stored, or with a numeric coefficient split off first
+        uforms = (unitv, f"{unitv}.as_coeff_Mul()[1]")
+        with_reg = [f"self.registry[str({u_})][1] {op_} {dimv}" for u_ in uforms for op_ in ("is", "==")]
+        no_reg = [f"default_lut[inv_name_alternatives[_split_prefix(str({u_}), default_lut)[1]]][1] {op_} {dimv}" for u_ in uforms for op_ in ("is", "==")]
         sums = summarise(init, body=loop[0].body, keep={dimv, unitv})
         ok = True
         n_r = {"reg": 0, "noreg": 0}
